@@ -23,6 +23,8 @@ expressions
   * `e[i]`, `e[a:b]`, `e[a:]`, `e[:b]` on byte sequences; `bytes(e)`, `bytearray(e)` (copies: identity on values)
   * `EnumName.X` for an `IntEnum` of the same module (→ its integer value)
   * `bitstruct.unpack("u<w>u<w>…", e)` with a tuple of names as target (→ big-endian bit fields, `Py.bitsBE`)
+  * pure functions only: `return e`, `max(a, b)`, `min(a, b)`, `x or d` for an `Optional[int]` `x` (→ `Py.orNat`: `d` when `x` is None or 0),
+    `obj.attr` / `obj.method()` of abstract records declared in the `PureSpec` (→ the Lean term the spec names)
 typing (static, flow-insensitive per variable; the translator infers it)
   * `Nat` (provably non-negative int), `Int`, `Bool`, `Bytes`, `Option T`. A variable's type is the join of everything assigned to it.
   * operations that Python would reject at run time on `None` become `Py.unwrap` (→ `Py.Err.typeError`)
@@ -98,6 +100,11 @@ def lean_ty(t):
     if is_opt(t):
         inner = lean_ty(t[1]) if t[1] is not None else "Unit"
         return f"Option {inner}" if " " not in inner else f"Option ({inner})"
+    if isinstance(t, tuple) and t[0] == "List":
+        inner = lean_ty(t[1])
+        return f"List {inner}" if " " not in inner else f"List ({inner})"
+    if isinstance(t, tuple) and t[0] == "Rec":
+        return t[1]
     return t
 
 
@@ -130,8 +137,8 @@ class SlotSpec:
 class Translator:
     """statement/expression translation shared by slot methods and pure functions"""
 
-    def __init__(self, module: ast.Module, src_lines, slot: SlotSpec | None = None):
-        self.module, self.src_lines, self.slot = module, src_lines, slot
+    def __init__(self, module: ast.Module, src_lines, slot: SlotSpec | None = None, pure: "PureSpec | None" = None):
+        self.module, self.src_lines, self.slot, self.pure = module, src_lines, slot, pure
         self.enums = self._read_enums(module)
         self.out = []
         self.dropped = []        # dropped assert isinstance(...)
@@ -214,6 +221,8 @@ class Translator:
         v = n.id
         if self.slot and v in (self.idx_var, self.id_param):
             raise Unsupported(n, f"`{v}` may only be used as the slot index / the yielded id in a per-slot translation")
+        if self.pure and v in self.pure.params and self.pure.params[v][1] is None:
+            raise Unsupported(n, f"parameter `{v}` may only be used through its declared attributes")
         if self.emitting and not self.declared(v):
             raise Unsupported(n, f"local `{v}` is possibly unbound here (not assigned on every path in an enclosing scope)")
         return E(mangle(v), self.vt.get(v))
@@ -224,7 +233,24 @@ class Translator:
             if val < 0:
                 return E(f"(({val} : Int) /- {n.value.id}.{n.attr} -/)", INT, lit=val)
             return E(f"({val} /- {n.value.id}.{n.attr} -/)", NAT, lit=val)
+        if self.pure is not None:
+            rec, obj = self._record_of(n.value)
+            if rec is not None and (rec, n.attr) in self.pure.attrs:
+                tpl, ty = self.pure.attrs[(rec, n.attr)]
+                return E(tpl.format(obj), ty)
         raise Unsupported(n, "attribute access outside the subset")
+
+    def _record_of(self, v):
+        """(record type name, Lean term) of an expression that denotes a record of the pure-function spec"""
+        if isinstance(v, ast.Name) and v.id in self.pure.params and self.pure.params[v.id][1] is None:
+            return self.pure.params[v.id][0][1], ""
+        if isinstance(v, ast.Name):
+            t = self.vt.get(v.id)
+            if isinstance(t, tuple) and t[0] == "Rec":
+                if self.emitting and not self.declared(v.id):
+                    raise Unsupported(v, f"local `{v.id}` is possibly unbound here")
+                return t[1], mangle(v.id)
+        return None, None
 
     def ex_UnaryOp(self, n):
         if isinstance(n.op, ast.USub):
@@ -288,6 +314,19 @@ class Translator:
         raise Unsupported(n, "binary operator outside the subset")
 
     def ex_BoolOp(self, n):
+        if isinstance(n.op, ast.Or) and len(n.values) == 2:
+            saved = self.raising
+            a = self.ex(n.values[0])
+            self.raising = False
+            b = self.ex(n.values[1])
+            if a.ty is not None and strip_opt(a.ty) in (NAT, INT) and b.ty in (NAT, INT):
+                if self.raising:
+                    raise Unsupported(n, "right operand of `or` can raise: short-circuit evaluation would matter")
+                self.raising = saved
+                t = join(strip_opt(a.ty), b.ty, n)
+                f = "Py.orNat" if t == NAT else "Py.orInt"
+                return E(f"({f} {self.coerce(a, opt(t), n)} {self.coerce(b, t, n)})", t)   # `x or d`: d when x is None or 0
+            self.raising = saved
         saved = getattr(self, "raising", False)
         parts = []
         for k, v in enumerate(n.values):
@@ -351,6 +390,17 @@ class Translator:
             e = E(self.coerce(a, BYTES, n), BYTES, fresh=True)
             e.made_by = f.id
             return e
+        if isinstance(f, ast.Name) and f.id in ("max", "min") and len(n.args) == 2 and not n.keywords:
+            a, b = self._num(self.ex(n.args[0]), n), self._num(self.ex(n.args[1]), n)
+            if a.ty is None or b.ty is None:
+                return E("_", None)
+            t = join(a.ty, b.ty, n)
+            return E(f"({f.id} {self.coerce(a, t, n)} {self.coerce(b, t, n)})", t)
+        if self.pure is not None and isinstance(f, ast.Attribute) and not n.args and not n.keywords:
+            rec, obj = self._record_of(f.value)
+            if rec is not None and (rec, f.attr) in self.pure.methods:
+                tpl, ty = self.pure.methods[(rec, f.attr)]
+                return E(tpl.format(obj), ty)
         raise Unsupported(n, "call outside the subset")
 
     def ex_Subscript(self, n):
@@ -416,12 +466,16 @@ class Translator:
                     elif isinstance(st, ast.For) and isinstance(st.target, ast.Name):
                         it = self._iterable(st.iter)
                         self._bind(st.target.id, it.ty[1] if it.ty else None, st)
+                    elif isinstance(st, ast.Return) and st.value is not None and self.pure is not None:
+                        self.pure_ret = join(self.pure_ret, self.ex(st.value).ty, st)
                 except Unsupported:
                     if _ == 11:
                         raise
             if before == self.vt:
                 break
         for v, t in self.vt.items():
+            if self.pure and v in self.pure.params:
+                continue
             if t is None or (is_opt(t) and t[1] is None):
                 raise Unsupported(body[0], f"cannot infer a type for local `{v}`")
 
@@ -920,6 +974,64 @@ def _read_init(tr: Translator, init, spec: SlotSpec):
 
 
 # ======================================================================================================================
+@dataclass
+class PureSpec:
+    """a module-level function (or method) without side effects over abstract records"""
+    params: dict                 # python parameter -> (type, Lean name | None); None = usable through its attributes only
+    binders: str                 # Lean binders of the generated function
+    attrs: dict = field(default_factory=dict)      # (record, attribute) -> (Lean template, `{}` = the object; type)
+    methods: dict = field(default_factory=dict)    # (record, argument-less method) -> (Lean template, type)
+
+
+def translate_pure_function(src: str, func: str, spec: PureSpec, namespace: str, imports, rel_path: str, lean_name=None,
+                            cls_name=None) -> str:
+    module = ast.parse(src)
+    lines = src.splitlines()
+    fn = _find_func(_find_class(module, cls_name) if cls_name else module, func)
+    tr = Translator(module, lines, pure=spec)
+    a = fn.args
+    if a.vararg or a.kwarg or a.kwonlyargs or a.defaults or [x.arg for x in a.args] != list(spec.params):
+        raise Unsupported(fn, f"expected parameters {list(spec.params)}")
+    body = list(fn.body)
+    while body and isinstance(body[0], ast.Expr) and isinstance(body[0].value, ast.Constant) and isinstance(body[0].value.value, str):
+        body.pop(0)
+    tr.infer(body, {k: v[0] for k, v in spec.params.items()})
+    if tr.pure_ret is None:
+        raise Unsupported(fn, "no return type inferred")
+    tr.emitting = True
+    tr.scopes = [{k for k, v in spec.params.items() if v[1] is not None}, set()]
+    term = False
+    for st in body:
+        if term:
+            raise Unsupported(st, "unreachable statement")
+        term = tr.stmt(st, 1)
+    if not term:
+        raise Unsupported(fn, "control can reach the end of the function (implicit `return None`)")
+    name = lean_name or _camel(func)
+    h = hashlib.sha256(_src_of(lines, fn).encode()).hexdigest()[:16]
+    o = [f"import {i}" for i in imports]
+    o.append(f"/-! GENERATED by harness/extract/py2lean.py from {rel_path} — do not edit.")
+    o.append(f"    `{(cls_name + '.') if cls_name else ''}{func}` (lines {fn.lineno}–{fn.end_lineno}); sha256 of the source: {h}…")
+    o.append("    records (python attribute / method ↔ Lean term):")
+    for (rec, at), (tpl, ty) in list(spec.attrs.items()) + list(spec.methods.items()):
+        o.append(f"      {rec}.{at} ↔ {tpl.format('·') or at} : {lean_ty(ty)}")
+    if tr.dropped:
+        o.append("    dropped typing assertions:")
+        o += [f"      {d}" for d in tr.dropped]
+    o.append("-/")
+    o.append("set_option linter.unusedVariables false")
+    o.append(f"namespace {namespace}")
+    o.append("open OdxVerif")
+    o.append("")
+    o.append(f"/-- `{func}`; `Except` = a Python exception -/")
+    o.append(f"def {name}E {spec.binders} : Py.M ({lean_ty(tr.pure_ret)}) := do")
+    o += tr.out
+    o.append("")
+    o.append(f"end {namespace}")
+    return "\n".join(o) + "\n"
+
+
+# ======================================================================================================================
 # the ISO-TP instance
 ISOTP_SPEC = SlotSpec(
     ids_attr="_can_rx_ids",
@@ -943,6 +1055,32 @@ def render_isotp(repo: Path) -> str:
                                  ["OdxVerif.Model.IsoTp", "OdxVerif.Model.PyRt"], rel)
 
 
+STATICLEN_SPEC = PureSpec(
+    params={"codec": (("Rec", "CompositeCodec"), None)},
+    binders="(parameters : List Param)",
+    attrs={("CompositeCodec", "parameters"): ("parameters", ("List", ("Rec", "Param"))),
+           ("Param", "byte_position"): ("{}.bytePos", opt(NAT)),
+           ("Param", "bit_position"): ("{}.bitPos", opt(NAT))},
+    methods={("Param", "get_static_bit_length"): ("{}.kind.staticBitLen", opt(NAT))})
+
+
+def render_staticlen(repo: Path) -> str:
+    rel = "odxtools/codec.py"
+    src = (Path(repo) / rel).read_text()
+    return translate_pure_function(src, "composite_codec_get_static_bit_length", STATICLEN_SPEC, "OdxVerif.Codec.Gen",
+                                   ["OdxVerif.Model.Codec", "OdxVerif.Model.PyRt"], rel, lean_name="staticBitLength")
+
+
+def _write(out: Path, new: str):
+    if not out.exists() or out.read_text() != new:
+        out.write_text(new)
+    return out
+
+
+def regenerate_staticlen(repo, verif):
+    return _write(Path(verif) / "lean" / "OdxVerif" / "Gen" / "CodecStaticLen.lean", render_staticlen(Path(repo)))
+
+
 def regenerate_isotp(repo, verif):
     out = Path(verif) / "lean" / "OdxVerif" / "Gen" / "IsoTpStep.lean"
     new = render_isotp(Path(repo))
@@ -956,5 +1094,7 @@ if __name__ == "__main__":
     repo = Path(sys.argv[1]) if len(sys.argv) > 1 else Path("/repo")
     if len(sys.argv) > 2:
         print(regenerate_isotp(repo, Path(sys.argv[2])))
+        print(regenerate_staticlen(repo, Path(sys.argv[2])))
     else:
         sys.stdout.write(render_isotp(repo))
+        sys.stdout.write(render_staticlen(repo))
